@@ -272,6 +272,56 @@ func oracleCompletion(c *Ctx, cs *Case, cr *CaseResult, args []string, items []s
 				c.Class("c18/oracle: probe inconclusive")
 			}
 		}
+		// (c) a bare dash: every visible option the parser would accept here is offered under SOME spelling that
+		// reaches it (an outer option whose long name an inner command declares again is reachable by its
+		// short name only — then that one must be there)
+		if last == "-" && !terminated {
+			got := map[string]bool{}
+			for _, it := range items {
+				got[it] = true
+			}
+			for _, cmd := range chain {
+				for _, g := range allGroups(cmd) {
+					for _, o := range g.Options() {
+						if o.Hidden || g.Hidden {
+							continue
+						}
+						var reach []string
+						judged := true
+						if o.LongName != "" {
+							so, amb := scopeOption(chain, "--"+o.LongNameWithNamespace())
+							if amb {
+								judged = false
+							} else if so == o {
+								reach = append(reach, "--"+o.LongNameWithNamespace())
+							}
+						}
+						if o.ShortName != 0 && o.ShortName != '=' {
+							so, amb := scopeOption(chain, "-"+string(o.ShortName))
+							if amb {
+								judged = false
+							} else if so == o {
+								reach = append(reach, "-"+string(o.ShortName))
+							}
+						}
+						if !judged || len(reach) == 0 {
+							continue
+						}
+						offered := false
+						for _, sp := range reach {
+							if got[sp] {
+								offered = true
+							}
+						}
+						if !offered {
+							c.Check("every-reachable-option-is-offered-for-a-bare-dash", false, "C18:reachable-option-not-offered", in(), fmt.Sprintf("%q", items), fmt.Sprintf("one of %q among the items", reach))
+						} else {
+							c.Check("every-reachable-option-is-offered-for-a-bare-dash", true, "", nil, "", "")
+						}
+					}
+				}
+			}
+		}
 		// (b) exactly the visible long options of the context with that prefix
 		if strings.HasPrefix(last, "--") {
 			m := last[2:]
